@@ -228,7 +228,7 @@ func TestCheck(t *testing.T) {
 		return
 	}
 	tier := ev.Tier()
-	nh := ev.Pick(5, 24)
+	nh := ev.Pick(5, 40)
 	nb := ev.Pick(100, 200)
 	race := part == "race"
 	if race {
